@@ -78,7 +78,24 @@ var c03Sigs = map[string][]string{
 	},
 }
 
+// c03Tables: the reviewed decision tables of the qualifier functions (R2/R4), compared as boolean functions.
+func c03Tables(w *World, r *Report) {
+	for _, n := range []string{"isFlowValid", "validate", "validateExpr", "isHeadersQualified", "isStatusCodeQualified", "isMethodQualified", "isQueryParamsQualified", "isHeaderValueValid"} {
+		f := w.Fn(pkgFilter, "FilterNode."+n)
+		if f == nil {
+			continue // reported by R1
+		}
+		rule := "R4"
+		if n == "validate" || n == "isFlowValid" {
+			rule = "R2"
+		}
+		checkDecision(r, rule, n, f, 0, c03Sigs[n])
+	}
+}
+
 func runC03(w *World, r *Report) {
+	hrDefaultMethods(w, r, "R4")
+	hrResumeNodeIsPerFlow(w, r, "R9")
 	hrHeaderValueMatch(w, r, "R4")
 	hrSplitURLKeepsEmptyParts(w, r, "R7")
 	hrParseHeaders(w, r, "R4")
@@ -131,16 +148,7 @@ func runC03(w *World, r *Report) {
 	if len(seen) < 8 {
 		r.Undec("R1", "own-filter-only/tree-size", token.NoPos, "decision call tree has %d functions, hand-confirmed minimum 8", len(seen))
 	}
-	// R2/R4 frozen tables
-	for _, n := range names {
-		if f := fns[n]; f != nil {
-			rule := "R4"
-			if n == "validate" || n == "isFlowValid" {
-				rule = "R2"
-			}
-			checkDecision(r, rule, n, f, 0, c03Sigs[n])
-		}
-	}
+	c03Tables(w, r)
 	// header map construction feeds isHeaderValueValid with key -> values of the flow's own headers
 	if f := fns["isHeadersQualified"]; f != nil {
 		ok := false
